@@ -20,7 +20,7 @@ RULE = (
     "{sealed 1 byte, sealed 2 bytes, extent 64 bytes, extent 128 bytes} (240 symbols; thorough: services with independent request / response layouts, 300 "
     "symbols); case = (set of symbols with distinct identities, placement): every unordered pair in placement 'all targets', "
     "pairs whose second member is a message additionally in placements 'in a lookup root and referenced' and 'in a lookup root, "
-    "unreferenced'; chains: every combination of three minor versions of one type (port-ID none/p x sealed/extent per version) x every split of the members between the target root and a referenced lookup root; every pair over the extreme port-ID values {none, 0, 1, 8191 / 511} with unregulated ports allowed; thorough: every triple over a 60-symbol sub-alphabet. Non-trivial iff two members share a name or a port-ID; "
+    "unreferenced'; chains: every combination of three minor versions of one type (port-ID none/p x sealed/extent per version) x every split of the members between the target root and a referenced lookup root; 3..7 minor versions of one type with every pattern of port-ID presence, service / message port-IDs that differ by a power of two, every pair over the extreme port-ID values {none, 0, 1, 8191 / 511} with unregulated ports allowed; thorough: every triple over a 60-symbol sub-alphabet. Non-trivial iff two members share a name or a port-ID; "
     "distinct by canonical hash of (symbols, placement)"
 )
 ASSUMPTIONS = [
@@ -105,7 +105,7 @@ def plan(tier):
     shards = [{"kind": "pairs", "part": p, "parts": parts} for p in range(parts)]
     shards += [{"kind": "chains", "part": p, "parts": 8} for p in range(8)]
     shards += [{"kind": "port-triples", "part": p, "parts": 8} for p in range(8)]
-    shards += [{"kind": "long-minors"}]
+    shards += [{"kind": "long-minors"}, {"kind": "scale"}]
     shards += [{"kind": "port-values", "part": p, "parts": 4} for p in range(4)]
     if tier != "quick":
         shards += [{"kind": "triples", "part": p, "parts": 128} for p in range(128)]
@@ -165,6 +165,27 @@ def cases(shard, tier):
                 if i % shard["parts"] == shard["part"]:
                     yield {"symbols": [syms[a], syms[b]], "tier": tier, "placements": ["targets"], "unregulated": True}
                 i += 1
+        return
+    if shard["kind"] == "scale":
+        # beyond three of everything: 3..7 minor versions of one type (numbers of different digit counts), port-ID present / absent /
+        # changed per version; services and messages whose port-IDs differ by a power of two
+        mk = lambda v, p, kind="message": {"name": "r.A", "ver": v, "kind": kind, "port": p, "layout": ["sealed", "sealed"]}  # noqa: E731
+        for minors in ((2, 3, 10), (9, 10, 11), (1, 9, 10), (2, 10, 100), (8, 9, 10, 11), (0, 1, 2, 3, 4)):
+            for ports in itertools.product((None, 6200, 6201), repeat=len(minors)):
+                if len(minors) >= 4 and 6201 in ports and ports.count(6201) > 1:
+                    continue
+                yield {"symbols": [mk([1, m], p) for m, p in zip(minors, ports)], "tier": tier, "placements": ["targets"]}
+        for n in (5, 6, 7):
+            for mask in range(1 << n):
+                yield {"symbols": [mk([2, m], 6200 if mask >> m & 1 else None) for m in range(n)], "tier": tier, "placements": ["targets"]}
+                if n == 5:
+                    yield {"symbols": [mk([0, m + 1], 300 if mask >> m & 1 else None, "service") for m in range(n)], "tier": tier, "placements": ["targets"]}
+        for sid in (0, 1, 255, 300, 511):
+            for delta in (0, 256, 512, 1024, 2048, 4096):
+                for mid in (sid + delta, sid + delta + 1):
+                    if mid <= 8191:
+                        yield {"symbols": [{"name": "r.S", "ver": [1, 0], "kind": "service", "port": sid, "layout": ["sealed", "sealed"]}, {"name": "r.M", "ver": [1, 0], "kind": "message", "port": mid, "layout": ["sealed", "sealed"]},
+                                           {"name": "r.M2", "ver": [1, 0], "kind": "message", "port": 8191 - sid, "layout": ["sealed", "sealed"]}], "tier": tier, "placements": ["targets"], "unregulated": True}
         return
     if shard["kind"] == "long-minors":
         # minor versions whose decimal strings do not sort like the numbers (9 vs 10, 2 vs 10, 25 vs 100, 3 vs 255)
